@@ -22,7 +22,16 @@ def run_script(task):
     if d.get("error") or d.get("rc", 0) not in (0,) and not d.get("failures"):
         out["error"] = "bounded script %s failed: %s" % (task["script"], json.dumps(d)[:1500])
         return out
-    for fl in d.get("failures", [])[:3]:
+    from pyvc.report import load_known
+
+    open_ids = {f["id"] for f in load_known() if f.get("status", "known") == "known"}
+    seen_known = set()
+    for fl in d.get("failures", [])[:5]:
+        kid = fl.get("finding") if fl.get("finding") in open_ids else None
+        if kid:
+            if kid in seen_known:
+                continue
+            seen_known.add(kid)
         out["violations"].append(dict(id="bounded/%s/%s" % (task["script"], fl.get("clause", "clause")), kind="bounded", props=list(task.get("props", [])), verdict="refuted", backend="real-execution",
-                                      secs=0.0, func=task["script"], model=fl, replay_inline=dict(reproduced=True, witness=fl, script=task["script"], seed=task.get("seed", 0))))
+                                      secs=0.0, func=task["script"], model=fl, replay_inline=dict(reproduced=True, witness=fl, script=task["script"], seed=task.get("seed", 0)), **(dict(known=kid) if kid else {})))
     return out
